@@ -6,7 +6,13 @@ MODEL  : lean/NmVerif/Simd/*.lean (packed loop + tail, enumerators) run on integ
 ORACLE : NumPy on the logical arrays (independent statement of what the scalar evaluator must give).
 """
 import numpy as np
-from runner import Case
+from runner import Case as _Case
+
+
+def Case(req, harness, **kw):
+    """the Lean driver is shared by all properties: C12 requests carry the prefix `c12.` there"""
+    kw.setdefault('mreq', 'c12.' + req)
+    return _Case(req, harness, **kw)
 from shapes import prod, fmt
 
 ID = 'C12'
@@ -65,6 +71,8 @@ ASSUMPTIONS = [
     'size_t arithmetic does not wrap (element counts far below 2^64 in every case run)',
     'SIMDe AVX-512: hardshrink/softshrink/hardswish and double matmul do not compile against the installed SIMDe (missing '
     'simde_kxor_mask*, simd_op_t<simde_avx512_t,double>::fmadd uses the float intrinsic): not provided, not run',
+    'model and theorems follow the tree repaired by fixes/C12-*.diff (identity in the one-element reduction, negative axis '
+    'normalised, (1,1) broadcast operand read at 0, scalar-evaluator fallback for column-major operands and identity-less ops)',
 ]
 PARTIAL = [
     'reductions over an axis other than the last: simdReduceAxis_nonLastAxis_eq_fold proves, for every n-d shape pre++[A]++post, that '
@@ -76,25 +84,28 @@ PARTIAL = [
     'outer: outer_covers_once (every output cell written exactly once, any operand rank) is proved; that the lhs/rhs offsets of each step '
     'are the outer-product operands, and the evaluator-level simdOuter = scalarOuter, are not (correspondence + NumPy only)',
     'matmul: matmul_inner_covers_once (the inner steps of every output element read its lhs row / rhs column exactly once, any K) is '
-    'proved; the evaluator-level simdMatmul = sum of products is not (fmadd rounding is outside the model anyway; correspondence + NumPy)',
-    'column-major operands, (1,1) broadcast operands under a multi-row result, ops whose identity is not 0 in one-element reductions, '
-    'subtract.reduce, negative axes other than -1, NaN/-0.0 through min/max-built activations are outside the theorem domains: '
-    'known findings of the unchanged tree (counterexample theorems in Props/C12.lean where the model covers them)',
+    'proved; the evaluator-level simdMatmul = sum of products is not (fmadd rounding is outside the model anyway; correspondence + NumPy); '
+    'the column-major-lhs fallback of eval_matmul is not modelled (the harness only builds the accepted row-major lhs / column-major rhs)',
+    'NaN / -0.0 through the min/max-built activations relu6, hardtanh, softshrink are outside the lane-wise hypothesis: open known finding '
+    'elementwise.special-values',
 ]
 MANIFEST = dict(
-    text='Proof: 24 Lean theorems (4 of them counterexamples of known findings) over all element counts / row lengths and all lane counts > 0: closed form of the packed loop, every '
-         'packed access inside its buffer, packed chunks + tail partition [0,n); SIMD unary / same-shape binary = scalar evaluator; '
-         '2-d broadcasting binary: every output cell written exactly once, operand offsets = NumPy broadcasting, offsets in bounds, '
-         'evaluator = NumPy broadcasting; full reduction = left fold over a commutative monoid when the literal 0 is its identity; '
-         'horizontal reduction with identity padding = monoid sum of every row = the n-d scalar reference over the last axis; vertical reduction = scalar row accumulation loop = '
-         'column-wise left fold; outer enumerator covers every output cell once (any rank); matmul inner steps read each lhs row / rhs column once. Intrinsic wrappers are an explicit '
-         'lane-wise hypothesis. Tied to the C++ by a differential run of array::fn(args, ctx) for six SIMD contexts x float/double '
-         'against array::fn(args) in the same binary, the Lean model and NumPy, plus the pure enumerators tuple by tuple and an ASan run.',
+    text='Proof: 27 Lean theorems over all element counts / row lengths and all lane counts > 0: closed form of the packed loop, every '
+         'packed access inside its buffer, packed chunks + tail partition [0,n); SIMD unary / same-shape binary = scalar evaluator for '
+         'operands of either layout (column-major operands take the scalar path); 2-d broadcasting binary: every output cell written '
+         'exactly once, operand offsets = NumPy broadcasting (incl. (1,1) operands), offsets in bounds, evaluator = NumPy broadcasting; '
+         'full reduction = left fold over a commutative monoid from the identity of the op; identity-less ops, column-major operands and '
+         'negative axes reduce to the scalar evaluator / the normalised axis; horizontal reduction with identity padding = monoid sum of '
+         'every row = the n-d scalar reference over the last axis; vertical reduction = scalar row accumulation loop = column-wise left '
+         'fold; outer enumerator covers every output cell once (any rank); matmul inner steps read each lhs row / rhs column once. '
+         'Intrinsic wrappers are an explicit lane-wise hypothesis. Tied to the C++ by a differential run of array::fn(args, ctx) for six '
+         'SIMD contexts x float/double against array::fn(args) in the same binary, the Lean model and NumPy, plus the pure enumerators '
+         'tuple by tuple and an ASan run.',
     note='Lean kernel + propext/Classical.choice/Quot.sound; model hand-written, fidelity rests on the correspondence run; lane-wise '
-         'behaviour of the intrinsics is a hypothesis measured bitwise on this CPU only; reductions are proved on the 2-d form the '
-         'evaluator reshapes to (n-d identification by oracle); matmul and outer operand offsets by correspondence only; seven '
-         'known findings of the unchanged tree (column-major operands, full reduction from 0, subtract.reduce, negative axes, '
-         '(1,1) broadcast operand, NaN/-0.0 in min/max activations) are listed, not hidden.',
+         'behaviour of the intrinsics is a hypothesis measured bitwise on this CPU only; non-last-axis reductions are proved on the 2-d '
+         'form the evaluator reshapes to (n-d identification by oracle); matmul and outer operand offsets by correspondence only; five '
+         'defects found by this check were repaired in the source (fixes/C12-*.diff); one known finding stays open (NaN/-0.0 in '
+         'min/max-built activations).',
     technique='Lean 4 induction proofs over element counts / lane counts + hardware differential (SIMD vs scalar evaluator, ASan)')
 
 
@@ -203,7 +214,7 @@ def gen_unary(ctx, tier, rng):
                 x = logical(data, shape, layout, dt)
                 exp = 'ok shape=%s val=%s' % (fmt(shape), ints_str(unary_ref(op, x)))
                 req = 'unary dtype=%s op=%s lanes=%d shape=%s layout=%s fmt=int show=1 data=%s' % (dt, op, L, fmt(shape), layout, fdata(data))
-                yield Case(req, h, dom=(layout == 'row'), oracle=exp, nontrivial=nt,
+                yield Case(req, h, dom=True, oracle=exp, nontrivial=nt,
                            tags=['unary', 'ctx=' + ctx, dt, 'layout=' + layout, 'model', 'n<lanes' if n < L else ('n%lanes=0' if n % L == 0 else 'n%lanes!=0')])
             # values: every op, eighth-valued data, bitwise against the scalar evaluator (and NumPy where IEEE-exact)
             ops = UNARY_ALL_OPS if (tier == 'thorough' or len(shape) > 1 or n in (1, L - 1, L, L + 1, 2 * L + 1, 4 * L + 1)) else [UNARY_ALL_OPS[si % len(UNARY_ALL_OPS)], 'sqrt']
@@ -254,7 +265,7 @@ def binary_case(ctx, dt, L, op, ls, rs, ll, rl, ldata, rdata, as_int, tags, mode
     req = 'binary dtype=%s op=%s lanes=%d lshape=%s llayout=%s rshape=%s rlayout=%s fmt=%s show=1 ldata=%s rdata=%s' % (
         dt, op, L, fmt(ls), ll, fmt(rs), rl, 'int' if as_int else 'hex', fdata(ldata), fdata(rdata))
     if dom is None:
-        dom = (ll == 'row' and rl == 'row') and not pred_bcast_1x1(None, ls, rs)
+        dom = True
     return Case(req, h or hname(ctx), dom=dom, oracle=exp, model=model, nontrivial=(prod(oshape) >= L),
                 tags=['binary', 'ctx=' + ctx, dt, 'op=' + op] + tags)
 
@@ -335,7 +346,7 @@ def outer_case(ctx, dt, L, op, ls, rs, ll, rl, ldata, rdata, as_int, tags, model
     exp = 'ok shape=%s val=%s' % (fmt(ls + rs), ints_str(z) if as_int else hexbits(z, dt))
     req = 'outer dtype=%s op=%s lanes=%d lshape=%s llayout=%s rshape=%s rlayout=%s fmt=%s show=1 ldata=%s rdata=%s' % (
         dt, op, L, fmt(ls), ll, fmt(rs), rl, 'int' if as_int else 'hex', fdata(ldata), fdata(rdata))
-    return Case(req, hname(ctx), dom=(ll == 'row' and rl == 'row'), oracle=exp, model=model, nontrivial=(rs[-1] >= L),
+    return Case(req, hname(ctx), dom=True, oracle=exp, model=model, nontrivial=(rs[-1] >= L),
                 tags=['outer', 'ctx=' + ctx, dt, 'op=' + op, 'dims=%d,%d' % (len(ls), len(rs))] + tags)
 
 
@@ -390,9 +401,8 @@ def reduce_case(ctx, dt, L, op, shape, layout, axis, keep, data, tags, as_int=Tr
         extra = 'fmt=hex show=0 tolabs=%s tolrel=%s' % (repr(float(tol[0])), repr(float(tol[1])))
     req = 'reduce dtype=%s op=%s lanes=%d shape=%s layout=%s axis=%s keepdims=%d %s data=%s' % (
         dt, op, L, fmt(shape), layout, 'None' if axis is None else str(axis), keep, extra, fdata(data))
-    c = Case(req, h or hname(ctx), dom=False, oracle=exp, model=model, nontrivial=(prod(shape) >= L),
+    c = Case(req, h or hname(ctx), dom=True, oracle=exp, model=model, nontrivial=(prod(shape) >= L),
              tags=['reduce', 'ctx=' + ctx, dt, 'op=' + op, 'axis=' + ('None' if axis is None else ('neg' if axis < 0 else 'k')), 'keepdims=%d' % keep] + tags)
-    c.dom = not any(p(c) for p in (pred_colmajor, pred_reduce_out1_nonadd, pred_reduce_noidentity, pred_reduce_negaxis))
     return c
 
 
@@ -439,7 +449,7 @@ def gen_reduce(ctx, tier, rng):
                 yield reduce_case(ctx, dt, L, 'add', shape, 'col', k % dim, k % 2, reduce_data('add', prod(shape), rng), ['model', 'layout=col'])
                 yield reduce_case(ctx, dt, L, 'subtract', shape, 'row', k % dim, k % 2, reduce_data('add', prod(shape), rng), ['model', 'no-identity'])
                 if prod(shape) <= 4 * L:
-                    yield reduce_case(ctx, dt, L, 'add', shape, 'row', -2 - (k % (dim - 1)), k % 2, reduce_data('add', prod(shape), rng), ['negative-axis'], model=False)
+                    yield reduce_case(ctx, dt, L, 'add', shape, 'row', -2 - (k % (dim - 1)), k % 2, reduce_data('add', prod(shape), rng), ['model', 'negative-axis'])
 
 
 def gen_matmul(ctx, tier, rng):
@@ -501,9 +511,10 @@ def gen_enum(tier, rng):
 
 
 def memory_unsafe(c):
-    """input classes on which the unchanged code leaves its buffers: only ever sent to a sanitizer build
-    (a plain build would corrupt its heap and poison the answers to later requests)"""
-    return pred_bcast_1x1(c) or pred_reduce_negaxis(c)
+    """input classes on which the code leaves its buffers: only ever sent to a sanitizer build (a plain build would
+    corrupt its heap and poison the answers to later requests).  None since the (1,1)-broadcast and negative-axis
+    repairs; the hook stays for future findings of that kind."""
+    return False
 
 
 def gen(tier, rng):
@@ -512,6 +523,7 @@ def gen(tier, rng):
         san = ctx in SAN_CTXS[tier]
         for g in (gen_unary, gen_unary_special, gen_binary, gen_outer, gen_reduce, gen_matmul):
             for c in g(ctx, tier, rng):
+                c.tags = c.tags + tuple('repaired:' + n for n, pr in REPAIRED_CLASSES if pr(c))
                 unsafe = memory_unsafe(c)
                 if not unsafe:
                     yield c
@@ -594,11 +606,12 @@ def pred_special_minmax(case):
     return 'nan' in d or '-0.0' in d
 
 
+REPAIRED_CLASSES = [('layout.column-major', pred_colmajor), ('binary.bcast-1x1', pred_bcast_1x1),
+                    ('reduce.full-from-zero', pred_reduce_out1_nonadd), ('reduce.no-identity', pred_reduce_noidentity),
+                    ('reduce.negative-axis', pred_reduce_negaxis)]
+
+# the input classes of the repaired defects (column-major operand, (1,1) broadcast operand, one-element reduction of a
+# non-add op, subtract.reduce, negative axis) stay as tag helpers above; only the open finding is a known predicate
 KNOWN_PREDICATES = {
     'special_values_minmax': pred_special_minmax,
-    'colmajor_operand': pred_colmajor,
-    'bcast2d_1x1_operand': pred_bcast_1x1,
-    'reduce_out1_nonadd': pred_reduce_out1_nonadd,
-    'reduce_no_identity': pred_reduce_noidentity,
-    'reduce_negative_axis': pred_reduce_negaxis,
 }
